@@ -476,6 +476,10 @@ def _mkq(w, reg, v, s, route="ctor"):
         return unyt.unyt_array(v, s, registry=reg)
     if route == "array":
         return unyt.unyt_array([v], s, registry=reg)
+    if route == "from_string" and not isinstance(v, list):
+        return unyt.unyt_quantity.from_string("%r %s" % (float(v), s), unit_registry=reg)
+    if route == "array_unitstr" and not isinstance(v, list):
+        return unyt.unyt_array(np.array([v, v]), s, registry=reg)
     return unyt.unyt_quantity(v, s, registry=reg)
 
 
@@ -486,6 +490,31 @@ def op_unit(w, op):
 
 def op_quantity(w, op):
     return _mkq(w, w.handle(op), op["v"], op["s"], op.get("route", "ctor"))
+
+
+def op_list_same(w, op):
+    unyt, lt, dims, uo, ur, us = _U()
+    reg = w.handle(op)
+    return reg.list_same_dimensions(uo.Unit(op["s"], registry=reg))
+
+
+def op_regview(w, op):
+    """The registry's read-only views of its contents."""
+    reg = w.handle(op)
+    what = op.get("what", "keys")
+    if what == "keys":
+        return sorted(k for k in reg.keys() if k in op["names"])
+    if what == "prefixable":
+        return sorted(k for k in reg.prefixable_units if k in op["names"])
+    return [n in reg for n in op["names"]]
+
+
+def op_arrlist(w, op):
+    """unyt_array([q1, q2, ...], registry=reg) from quantities of the exported namespace."""
+    unyt, lt, dims, uo, ur, us = _U()
+    reg = w.handle(op)
+    qs = [float(i + 1) * getattr(unyt, n) for i, n in enumerate(op["names"])]
+    return unyt.unyt_array(qs, registry=reg)
 
 
 def op_getitem(w, op):
@@ -775,6 +804,7 @@ PROBES = {
     "unitop": op_unitop, "simplify": op_simplify, "units_of": op_units_of, "rebind": op_rebind,
     "namespace": op_namespace, "copyobj": op_copyobj,
     "mkusys": op_mkusys, "usys_get": op_usys_get, "usys_set": op_usys_set,
+    "list_same": op_list_same, "regview": op_regview, "arrlist": op_arrlist,
 }
 
 INPLACE_TARGET = {("to", "convert"), ("base", "convert_to_base")}
@@ -999,6 +1029,21 @@ class GlobalSnapshot:
                         )
                         self._snap_unit(f"{modname}.{name}.units", obj.units)
         self.usys = dict(us.unit_system_registry)
+        # module-level tables the parser and the conversions consult: nothing done for a custom registry may
+        # write into them
+        self.tables = {}
+        import unyt._parsing as _pars
+        import unyt.equivalencies as _eq
+
+        for mod in (lt, uo, _pars, us, _eq, ur):
+            for name, obj in sorted(vars(mod).items()):
+                if isinstance(obj, dict) and not name.startswith("__") and id(obj) not in {id(t[1]) for t in self.tables.values()}:
+                    if name in ("default_unit_symbol_lut", "unit_system_registry", "_LINE_CACHE"):
+                        continue
+                    try:
+                        self.tables[f"{mod.__name__}.{name}"] = (dict(obj), obj)
+                    except Exception:
+                        pass
         self.names = {(modname, name) for _ns, modname, name, _o in self.bindings}
 
     def _snap_unit(self, label, u):
@@ -1014,7 +1059,9 @@ class GlobalSnapshot:
             if self.lut.get(k) is not v:
                 problems.append(("default-table-entry", k))
         for ns, modname, name, obj in self.bindings:
-            if ns.get(name) is not obj:
+            if ns.get(name) is not obj and name not in allowed_new:
+                # (allowed_new: define_unit ON THE DEFAULT REGISTRY exports - and for a name like "year" that was
+                # already exported re-binds - the symbol, by documented design)
                 problems.append(("export-rebound", f"{modname}.{name}"))
         for label, u, bv, off, dm, expr, reg in self.units.values():
             if not (u.base_value == bv and u.base_offset == off and u.dimensions is dm):
@@ -1031,6 +1078,9 @@ class GlobalSnapshot:
         for k, v in self.usys.items():
             if us.unit_system_registry.get(k) is not v:
                 problems.append(("unit-system-replaced", k))
+        for label, (copy_, live) in self.tables.items():
+            if len(copy_) != len(live) or any(k not in live or live[k] is not v and live[k] != v for k, v in copy_.items()):
+                problems.append(("module-table-changed", label))
         for modname, mod in sorted(self.mods.items()):
             for name, obj in sorted(vars(mod).items()):
                 if (modname, name) in self.names or name in allowed_new:
